@@ -151,6 +151,8 @@ def cause_ok(kf: dict, code: str, ast_txt: str, flags: int) -> bool:
             num = r'\(EOp \(ONum \(-?\d+\) \w+ "[^"]*"\)\)'
             if re.search(r"\(ECond (" + num + r"|\(ECast \[[^\]]*\] " + num + r"\)|\(E(Bin|Un) \w+ " + num + ")", ast_txt):
                 return True
+            if re.search(r'\(ECond \((ECall "sizeof"|EUn USizeofE)', ast_txt):       # sizeof(..) is a compile-time constant as well
+                return True
         if c == "discarded-value" and re.search(r"\(SExpr \((EBin|ELoad|ECast|EUn|EOp|ECond|EMacro) ", ast_txt):
             return True
         if c == "sizeof" and ("USizeofE" in ast_txt or "ECall \"sizeof\"" in ast_txt):
